@@ -23,11 +23,15 @@ import (
 // ---- Processor ----
 
 type c19Op struct {
-	id   int
-	fail bool
+	id     int
+	fail   bool
+	panics bool
 }
 
 func (o c19Op) Operation() (interface{}, error) {
+	if o.panics {
+		panic(fmt.Sprintf("op %d blew up", o.id))
+	}
 	if o.fail {
 		return nil, fmt.Errorf("op %d failed", o.id)
 	}
@@ -41,6 +45,7 @@ type c19ProcPlan struct {
 	QueueCap int  `json:"queue_capacity"`
 	Procs    int  `json:"gomaxprocs"`
 	Barrier  bool `json:"park_exiting_workers_until_all_have_returned_their_token"`
+	PanicAt  int  `json:"operation_that_panics,omitempty"` // its worker turns the panic into that operation's error result and exits
 }
 
 type c19Events struct {
@@ -102,7 +107,7 @@ func c19Processor(r *obs.Run, p c19ProcPlan) {
 	proc := concurrent.NewProcessor(queue, p.Buffer, p.Threads)
 	go func() {
 		for i := 0; i < p.Ops; i++ {
-			proc.Process(c19Op{id: i + 1, fail: i%5 == 3})
+			proc.Process(c19Op{id: i + 1, fail: i%5 == 3, panics: i+1 == p.PanicAt})
 		}
 		proc.Close()
 	}()
@@ -113,10 +118,15 @@ func c19Processor(r *obs.Run, p c19ProcPlan) {
 		switch {
 		case err != nil:
 			var id int
-			if _, e := fmt.Sscanf(err.Error(), "op %d failed", &id); e != nil {
+			if _, e := fmt.Sscanf(err.Error(), "concurrent: processor panic: op %d blew up", &id); e == nil {
+				if id != p.PanicAt {
+					bad = fmt.Sprintf("operation %d does not panic, yet its result carries a panic error", id)
+				}
+				seen[id]++
+			} else if _, e := fmt.Sscanf(err.Error(), "op %d failed", &id); e != nil {
 				bad = fmt.Sprintf("result %d carries an unexpected error: %v", i, err)
 			} else {
-				if (id-1)%5 != 3 {
+				if (id-1)%5 != 3 || id == p.PanicAt {
 					bad = fmt.Sprintf("operation %d does not fail, yet its result carries an error", id)
 				}
 				seen[id]++
@@ -125,7 +135,7 @@ func c19Processor(r *obs.Run, p c19ProcPlan) {
 			bad = fmt.Sprintf("result %d of %d is empty (nil value, nil error): the results channel was closed early or a result was lost", i, p.Ops)
 		default:
 			id := v.(int)
-			if (id-1)%5 == 3 {
+			if (id-1)%5 == 3 || id == p.PanicAt {
 				bad = fmt.Sprintf("operation %d fails, yet its result carries a value", id)
 			}
 			seen[id]++
@@ -162,6 +172,9 @@ func c19Processor(r *obs.Run, p c19ProcPlan) {
 	}
 	if p.Ops == 0 {
 		r.Count("processor_zero_operation_runs", 1)
+	}
+	if p.PanicAt > 0 {
+		r.Count("processor_runs_with_a_panicking_operation", 1)
 	}
 	h, n := ev.hash()
 	r.Count("hook_events", int64(n))
@@ -251,6 +264,14 @@ type c19PState struct {
 	err string
 }
 
+// c19Val maps the harness's value numbers to what is handed to the promise: 0 stands for the untyped nil value.
+func c19Val(v int) interface{} {
+	if v == 0 {
+		return nil
+	}
+	return v
+}
+
 func c19PromiseSeq(r *obs.Run) {
 	rng := r.Rng
 	flags := rng.Intn(8)
@@ -268,8 +289,12 @@ func c19PromiseSeq(r *obs.Run) {
 		switch c := rng.Intn(4); {
 		case c == 0 || (c == 3 && !st.set):
 			v := 100 + k
-			ops = append(ops, fmt.Sprintf("Fulfill(%d)", v))
-			err := p.Fulfill(v)
+			if rng.Intn(5) == 0 {
+				v = 0 // Fulfill(nil): the promise is set all the same
+				r.Count("promise_nil_values", 1)
+			}
+			ops = append(ops, fmt.Sprintf("Fulfill(%v)", c19Val(v)))
+			err := p.Fulfill(c19Val(v))
 			switch {
 			case st.err != "":
 				if err == nil {
@@ -405,6 +430,9 @@ func c19PromiseConc(r *obs.Run, hook bool) {
 			switch rng.Intn(5) {
 			case 0, 1:
 				in = c19In{"fulfill", 10*(g+1) + k}
+				if rng.Intn(5) == 0 {
+					in.Val = 0
+				}
 				settles++
 			case 2:
 				in = c19In{"fail", 10*(g+1) + k}
@@ -417,7 +445,14 @@ func c19PromiseConc(r *obs.Run, hook bool) {
 	}
 	// goroutine 0 settles the promise before anything else it does, so every Wait of a correct
 	// implementation can return and the harness itself never creates a history that must block
-	plans[0] = append([]c19In{{[]string{"fulfill", "fail"}[rng.Intn(2)], 7}}, plans[0]...)
+	plans[0] = append([]c19In{{[]string{"fulfill", "fail"}[rng.Intn(2)], []int{7, 7, 0}[rng.Intn(3)]}}, plans[0]...)
+	for _, pl := range plans {
+		for _, in := range pl {
+			if in.Kind == "fulfill" && in.Val == 0 {
+				r.Count("promise_nil_values", 1)
+			}
+		}
+	}
 	_ = settles
 	// "late settle" histories: every other goroutine starts with a Wait and goroutine 0 settles only after a
 	// short pause, so that several waiters are already parked when the value arrives
@@ -444,9 +479,9 @@ func c19PromiseConc(r *obs.Run, hook bool) {
 				var out c19Out
 				switch in.Kind {
 				case "fulfill":
-					out.OK = p.Fulfill(in.Val) == nil
+					out.OK = p.Fulfill(c19Val(in.Val)) == nil
 				case "fail":
-					out.OK = p.Fail(in.Val, errors.New("failed"))
+					out.OK = p.Fail(c19Val(in.Val), errors.New("failed"))
 				default:
 					res := <-p.Wait()
 					out.Val, _ = res.Value.(int)
@@ -519,7 +554,7 @@ func init() {
 			return 8
 		},
 		MaxPar:      8,
-		Cases:       func(r *obs.Run) int { return r.Share(r.Pick(2400, 64000)) },
+		Cases:       func(r *obs.Run) int { return r.Share(r.Pick(4000, 64000)) },
 		Setup:       func(r *obs.Run) { r.WatchDeadlock(5*time.Second, 2*time.Minute) },
 		Case:        c19Case,
 		MinDistinct: func(t string) int { return 1200 },
@@ -545,7 +580,14 @@ func c19Case(r *obs.Run, i int) {
 		}
 		ops := []int{0, 0, maxInt(eff-1, 0), eff, 3*eff + rng.Intn(40), 1 + rng.Intn(200)}[rng.Intn(6)]
 		buf := []int{0, 1, ops}[rng.Intn(3)]
-		c19Processor(r, c19ProcPlan{Threads: threads, Buffer: buf, Ops: ops, QueueCap: []int{0, 1, 8}[rng.Intn(3)], Procs: procs, Barrier: i%2 == 0})
+		plan := c19ProcPlan{Threads: threads, Buffer: buf, Ops: ops, QueueCap: []int{0, 1, 8}[rng.Intn(3)], Procs: procs, Barrier: i%2 == 0}
+		if ops > 0 && rng.Intn(4) == 0 { // one operation panics: its worker reports that as the operation's error and exits
+			plan.PanicAt = ops // with a single worker nobody would be left for later operations
+			if eff >= 2 {
+				plan.PanicAt = 1 + rng.Intn(ops)
+			}
+		}
+		c19Processor(r, plan)
 	case 2:
 		c19Map(r)
 	case 3:
